@@ -255,7 +255,7 @@ def docOps (o : POpts) (S : LSchema) (t : List DNode) : Option (List Op) :=
 def printLyb (P : Params) (o : POpts) (S : LSchema) (t : List DNode) : Option Bytes :=
   match docOps o S t with
   | none => none
-  | some ops => if wellNestedFrom 0 ops then writeAll P ops else none     -- every frame opened is closed (checked, not assumed)
+  | some ops => writeAll P ops
 
 /-! ## parser -/
 
